@@ -91,6 +91,12 @@ def toBytes (ip : List Char) : Bytes :=
 /-- `ToStringFrInt` / `ToStringInt` -/
 def toStringFrInt (ip : Int) : Option (List Char) := toString (toBytesInt ip)
 
+/-- `iputil.IsOK(ip)`: `ip != nil && len(ip) == 4` (a nil slice has length 0, so it is `len(ip) == 4`) -/
+def isOK (ip : Bytes) : Bool := ip.length == 4
+
+/-- `iputil.IsNotLocal(ip)`: `IsOK(ip) && uint(ip[0]) != 127` -/
+def isNotLocal (ip : Bytes) : Bool := isOK ip && ip.headD 0 != 127
+
 end IpUtil
 
 namespace StrHash
